@@ -70,10 +70,12 @@ class SymSeq:
     """Symbolic-length list.  cols: one z3 Seq per tuple component (structure of arrays);
     arity None means a list of scalars/objects (single column)."""
 
-    def __init__(self, cols, arity=None, classes=None):
+    def __init__(self, cols, arity=None, classes=None, keys=None):
         self.cols = list(cols)
         self.arity = arity
         self.classes = classes or [None] * len(self.cols)
+        self.keys = keys          # record mode: list of dict keys, one per column (a list of dicts with these keys tracked)
+        self.extractors = None    # record mode: optional callables dict -> value, one per column
 
     def length(self):
         return z3.Length(self.cols[0])
@@ -83,12 +85,23 @@ class SymSeq:
         for c, cls in zip(self.cols, self.classes):
             e = c[i]
             vals.append(wrap(e, cls))
+        if self.keys is not None:
+            return dict(zip(self.keys, vals))
         if self.arity is None:
             return vals[0]
         return tuple(vals)
 
     def append(self, v):
-        if self.arity is None:
+        if self.keys is not None:
+            if not isinstance(v, dict):
+                raise Unsupported('append of a non-dict to a list of records')
+            if self.extractors is not None:
+                vs = [ex(v) for ex in self.extractors]
+            else:
+                if any(k not in v for k in self.keys):
+                    raise Unsupported('append of a record without the tracked keys %s' % self.keys)
+                vs = [v[k] for k in self.keys]
+        elif self.arity is None:
             vs = [v]
         else:
             if not isinstance(v, tuple) or len(v) != self.arity:
@@ -98,7 +111,9 @@ class SymSeq:
             self.cols[j] = z3.Concat(self.cols[j], z3.Unit(to_z3(x, self.cols[j].sort().basis())))
 
     def copy(self):
-        return SymSeq(self.cols, self.arity, list(self.classes))
+        c = SymSeq(self.cols, self.arity, list(self.classes), self.keys)
+        c.extractors = self.extractors
+        return c
 
 
 class SymSet:
@@ -227,6 +242,8 @@ def is_sym(v):
 def wrap(e, cls=None):
     if z3.is_expr(e) and e.sort() == ObjS:
         return Obj(e, cls)
+    if z3.is_expr(e) and z3.is_seq(e) and e.sort() != StrS:
+        return SymSeq([e], None, [cls])      # nested list (e.g. a CSV row inside a list of rows)
     return e
 
 
